@@ -25,6 +25,8 @@ RULE = ('Hypothesis draws the state dimension d (1..6), the number of diffusion 
         'V^T W^1/2 (L Psi)^T U S^-1 resp. -1/2 sum_l w_l S^-1 U^T grad Psi_l a_l grad Psi_l^T U S^-1 built from an explicit Psi '
         'and numpy.linalg.svd. Non-trivial: non-square diffusion, reweighting, >= 3 modes, a coordinate shared by two modes, or the '
         'reversible variant.')
+RULE += (' ' + 'Added classes: state dimension up to 6, user-defined functions of two coordinates with mixed second derivatives, basis objects used before.')
+
 ASSUMPTIONS = [
     'tgEDMD: the dense reduced matrix has norm > 1e-8 and an eigenvector matrix of condition number < 1e5 (otherwise discarded)',
     'oracle: closed-form derivatives written in the harness (numpy.polynomial for Legendre), numpy.linalg.svd/eig',
